@@ -357,6 +357,24 @@ func c13Fixed() []*c13Stream {
 		s.shape = "fixed:" + c13StreamShape(s)
 		return s
 	}
+	// frames whose total length sits on and around multiples of 2^16 (the head length is a 16-bit field, the total
+	// length a 32-bit one): a small frame, the large one with a head map, a heart-beat behind it
+	small, _ := wire.Encode(wire.New(wire.TGlobalBegin, "timeout", 60000, "transactionName", "s"))
+	head := []wire.HeadKV{{K: "k", V: "v"}, {K: "trace", V: strings.Repeat("t", 20)}}
+	probe := &wire.Frame{Version: 1, Type: wire.FrameRequestSync, Codec: 1, ID: 70, Head: head}
+	probe.Body, _ = wire.Encode(wire.New(wire.TBranchRegister, "xid", "10.0.0.1:8091:7", "branchType", 0, "resourceId", "r", "lockKey", "", "applicationData", ""))
+	base := len(wire.EncodeFrame(probe))
+	headLen := base - len(probe.Body)
+	for _, total := range []int{1<<16 - 1, 1 << 16, 1<<16 + 1, 1<<16 + 15, 1<<16 + 16, 1<<16 + headLen - 1, 1<<16 + headLen, 1<<16 + headLen + 1, 1 << 17, 1<<17 + headLen - 1} {
+		b, _ := wire.Encode(wire.New(wire.TBranchRegister, "xid", "10.0.0.1:8091:7", "branchType", 0, "resourceId", "r", "lockKey", strings.Repeat("k", total-base), "applicationData", ""))
+		big := &wire.Frame{Version: 1, Type: wire.FrameRequestSync, Codec: 1, ID: 71, Head: head, Body: b}
+		if got := len(wire.EncodeFrame(big)); got != total {
+			panic(fmt.Sprintf("c13: boundary frame has %d bytes, wanted %d", got, total))
+		}
+		st := mk(&wire.Frame{Version: 1, Type: wire.FrameRequestSync, Codec: 1, ID: 69, Body: small}, big, &wire.Frame{Version: 1, Type: wire.FrameHeartbeatResp, Codec: 1, ID: 72})
+		st.shape = fmt.Sprintf("fixed:length-boundary:2^%d%+d", map[bool]int{true: 16, false: 17}[total < 1<<17-100], total-map[bool]int{true: 1 << 16, false: 1 << 17}[total < 1<<17-100])
+		out = append(out, st)
+	}
 	body, _ := wire.Encode(wire.New(wire.TGlobalBegin, "timeout", 60000, "transactionName", "tx"))
 	out = append(out, mk(&wire.Frame{Version: 1, Type: wire.FrameHeartbeatReq, Codec: 1, ID: 5}))
 	out = append(out, mk(&wire.Frame{Version: 1, Type: wire.FrameRequestSync, Codec: 1, ID: 7, Head: []wire.HeadKV{{"k", "v"}, {"e", ""}}, Body: body}))
